@@ -337,12 +337,14 @@ static void *do_read(int kind, char *path) {
 }
 static void do_del(int kind, void *m) { if (kind == K_PCA) { PCAMODEL *p = m; DelPCAModel(&p); } else if (kind == K_PLS) { PLSMODEL *p = m; DelPLSModel(&p); } else { CPCAMODEL *p = m; DelCPCAModel(&p); } }
 
-/* ------------------------------------------------------------------ one step, in its own process
- * Write + Read + Predict of one step run in a forked child: a crash, abort(), allocation bomb or endless loop
- * of the library ends the child only, the parent (the engine's worker) attributes it to the call and the
- * input class (key died|<call>|<class>) and the history goes on.  The child reports through a pipe: one
- * stage byte before each library call, then the judgement.  waitpid is declared by hand: <sys/wait.h>
- * pulls in <signal.h>, which clashes with the library's `ssignal` typedef. */
+/* ------------------------------------------------------------------ the library calls, in their own process
+ * The Write + Read + Predict calls of a history run in a forked child: a crash, abort(), allocation bomb or
+ * endless loop of the library ends the child only; the parent (the engine's worker) attributes it to the call
+ * and the input class (key died|<call>|<class>) and lets a fresh child continue the history after that step
+ * (the files are on disk, the models are pristine in the parent).  The child reports through a pipe: one stage
+ * byte before each library call ('W','R','P'), then 'F' + the judgement of the step.  At most 5 steps x 1.1 kB,
+ * far below the pipe capacity, so the child never blocks.  waitpid is declared by hand: <sys/wait.h> pulls in
+ * <signal.h>, which clashes with the library's `ssignal` typedef. */
 extern int waitpid(int pid, int *status, int options);
 typedef struct {
   int mutated, other_changed, ok, has2, ok2, pred_done, pred_n, wj;
@@ -351,60 +353,63 @@ typedef struct {
   char msg[700], msg2[300];
 } stepres;
 
-static void step_child(int fd, mdl *a, int p) {
+static void put(int fd, const void *p, size_t n) { if (write(fd, p, n) != (ssize_t)n) _exit(3); }
+
+static void step_in_child(int fd, mdl *a, int p) {
   static flat G; static double pr[MAXPRED]; static stepres R;
-  int kind = a->kind; char st;
+  int kind = a->kind;
   memset(&R, 0, sizeof R);
   uint64_t other_before = file_hash(PATHS[1 - p]);
-  st = 'W'; if (write(fd, &st, 1) != 1) _exit(3);
-  alloc_used = 0; ticks_ = 0;
+  put(fd, "W", 1); alloc_used = 0; ticks_ = 0;
   do_write(kind, PATHS[p], a->model);
   R.fh = file_hash(PATHS[p]);
   flatten(kind, a->model, &G);
   R.mutated = flat_hash(&G, 1) != a->h0;
   R.other_changed = file_hash(PATHS[1 - p]) != other_before;
-  st = 'R'; if (write(fd, &st, 1) != 1) _exit(3);
-  alloc_used = 0; ticks_ = 0;
+  put(fd, "R", 1); alloc_used = 0; ticks_ = 0;
   void *r = do_read(kind, PATHS[p]);
   flatten(kind, r, &G);
   R.ok = flat_compare(kind, &a->F, &G, 0, R.msg, sizeof R.msg, &R.val_ratio);
   R.gh = flat_hash(&G, 0);
   if (kind == K_PCA) { R.has2 = 1; R.ok2 = flat_compare(kind, &a->F, &G, 1, R.msg2, sizeof R.msg2, NULL); }
   if (R.ok) {
-    st = 'P'; if (write(fd, &st, 1) != 1) _exit(3);
-    alloc_used = 0; ticks_ = 0;
+    put(fd, "P", 1); alloc_used = 0; ticks_ = 0;
     int n = predict(a, r, pr);
     R.pred_done = 1; R.pred_n = n; R.pred_ratio = n == a->np ? 0 : INFINITY;
     for (int j = 0; j < n && n == a->np; j++) { double e = fabs(pr[j] - a->pred[j]); if (!(e == e)) e = INFINITY; if (e / a->allow[j] > R.pred_ratio) { R.pred_ratio = e / a->allow[j]; R.wj = j; } }
     R.pv = n == a->np ? pr[R.wj] : NAN; R.sv = a->pred[R.wj]; R.av = a->allow[R.wj];
   }
-  st = 'F'; if (write(fd, &st, 1) != 1 || write(fd, &R, sizeof R) != (ssize_t)sizeof R) _exit(3);
-  _exit(0);
+  do_del(kind, r);
+  put(fd, "F", 1); put(fd, &R, sizeof R);
 }
 
-/* returns the last stage byte seen; *done = 1 if the judgement arrived; *status = wait status */
-static char run_step(mdl *a, int p, stepres *R, int *done, int *status) {
-  int fds[2]; *done = 0; *status = 0;
+#define MAXLEN 5
+/* runs steps from..len-1 in one child; fills res[]/stage[] for the steps it got through; returns the number of
+ * steps completed (judgement received); *status = wait status of the child */
+static int run_steps(int from, int len, const int *mi, const int *pp, stepres *res, char *last_stage, int *status) {
+  int fds[2];
   if (pipe(fds) != 0) { fprintf(stderr, "VX-HARNESS-ERROR: C16 pipe failed\n"); _exit(2); }
   fflush(NULL);
   int pid = fork();
   if (pid < 0) { fprintf(stderr, "VX-HARNESS-ERROR: C16 fork failed\n"); _exit(2); }
-  if (pid == 0) { close(fds[0]); step_child(fds[1], a, p); _exit(0); }
+  if (pid == 0) { close(fds[0]); for (int s = from; s < len; s++) step_in_child(fds[1], &M[mi[s]], pp[s]); _exit(0); }
   close(fds[1]);
-  static unsigned char buf[sizeof(stepres) + 16]; size_t n = 0; ssize_t k;
+  static unsigned char buf[MAXLEN * (sizeof(stepres) + 8)]; size_t n = 0, i = 0; ssize_t k;
   while (n < sizeof buf && (k = read(fds[0], buf + n, sizeof buf - n)) > 0) n += (size_t)k;
   close(fds[0]);
   waitpid(pid, status, 0);
-  char stage = '?'; size_t i = 0;
-  while (i < n && buf[i] != 'F') stage = (char)buf[i++];
-  if (i < n && buf[i] == 'F' && n - i - 1 == sizeof(stepres)) { memcpy(R, buf + i + 1, sizeof *R); *done = 1; }
-  return stage;
+  int done = 0; *last_stage = '?';
+  while (i < n) {
+    unsigned char c = buf[i++];
+    if (c == 'F') { if (n - i < sizeof(stepres)) break; memcpy(&res[from + done], buf + i, sizeof(stepres)); i += sizeof(stepres); done++; *last_stage = '?'; }
+    else *last_stage = (char)c;
+  }
+  return done;
 }
 
 /* ------------------------------------------------------------------ one history */
-#define MAXLEN 5
 static void body(void) {
-  static stepres R;
+  static stepres RES[MAXLEN];
   in_setup = 0;
   /* quick: lengths 1..3; thorough: 1..4 over the full alphabet plus length 5 (the statement's bound) over
    * one small model per kind (PCA-small, PLS-small, CPCA-2blocks) x 2 paths = 6^5 histories */
@@ -412,59 +417,70 @@ static void body(void) {
   int L = vx_thorough() ? 5 : 3;
   int len = 1 + vx_choose("len-1", L);
   int sub = len == 5;
+  int mi[MAXLEN], pp[MAXLEN], nprev[MAXLEN]; const char *cls[MAXLEN];
   int hist[NPATH][MAXLEN], nh[NPATH] = {0, 0};
-  set_paths(); wipe_paths();
-  uint64_t oh = 0x16;
   for (int s = 0; s < len; s++) {
     char lab[16]; snprintf(lab, sizeof lab, "write%d", s);
-    int op = vx_choose(lab, sub ? 3 * NPATH : NMODEL * NPATH), mi = sub ? SUB[op % 3] : op % NMODEL, p = sub ? op / 3 : op / NMODEL;
-    mdl *a = &M[mi]; int kind = a->kind;
+    int op = vx_choose(lab, sub ? 3 * NPATH : NMODEL * NPATH);
+    mi[s] = sub ? SUB[op % 3] : op % NMODEL; pp[s] = sub ? op / 3 : op / NMODEL;
     /* class of this write, from the history of the path */
-    int shared = 0, differs = 0;
-    for (int q = 0; q < nh[p]; q++) if (shares_table(M[hist[p][q]].kind, kind)) { shared = 1; if (hist[p][q] != mi) differs = 1; }
-    const char *cls = nh[p] == 0 ? "first-write" : !shared ? "writes>=2,no-shared-table" : differs ? "writes>=2,prev-differs" : "writes>=2,prev-same-model";
-    char key[120];
-    vx_log("step %d: Write%s(%s, path %d)  [%s]\n", s, KN[kind], a->name, p, cls);
-
-    int done, st; char stage = run_step(a, p, &R, &done, &st);
-    vx_transition(stage == 'W' ? 1 : stage == 'R' ? 2 : 3);
-    if (!done) {
-      const char *call = stage == 'W' ? "Write" : stage == 'R' ? "Read" : stage == 'P' ? "Predict" : "step";
-      int sig = st & 0x7f, code = (st >> 8) & 0xff;
-      if (stage == '?' || (sig == 0 && code == 3)) { fprintf(stderr, "VX-HARNESS-ERROR: C16 step process failed before its first library call (status %d)\n", st); _exit(2); }
-      if (sig == 0 && code == EXIT_ALLOC) {
-        snprintf(key, sizeof key, "alloc|%s%s|%s", call, KN[kind], cls);
-        vx_check(0, key, "step %d of %d, %s%s(%s) on path %d after %d earlier write(s): the call asks for more than %ld MB of memory -- a dimension is taken from the wrong place", s + 1, len, call, KN[kind], a->name, p, nh[p], ALLOC_BUDGET >> 20);
-      } else if (sig == 0 && code == EXIT_NONTERM) {
-        snprintf(key, sizeof key, "nonterm|%s%s|%s", call, KN[kind], cls);
-        vx_check(0, key, "step %d of %d, %s%s(%s): iteration ceiling exceeded", s + 1, len, call, KN[kind], a->name);
-      } else {
-        snprintf(key, sizeof key, "died|%s%s|%s", call, KN[kind], cls);
-        vx_check(0, key, "step %d of %d, %s%s(%s) on path %d after %d earlier write(s) to it ended the process (%s %d; sanitizer report, if any, in the log)", s + 1, len, call, KN[kind], a->name, p, nh[p], sig ? "signal" : "exit code", sig ? sig : code);
+    int p = pp[s], kind = M[mi[s]].kind, shared = 0, differs = 0;
+    for (int q = 0; q < nh[p]; q++) if (shares_table(M[hist[p][q]].kind, kind)) { shared = 1; if (hist[p][q] != mi[s]) differs = 1; }
+    cls[s] = nh[p] == 0 ? "first-write" : !shared ? "writes>=2,no-shared-table" : differs ? "writes>=2,prev-differs" : "writes>=2,prev-same-model";
+    nprev[s] = nh[p]; hist[p][nh[p]++] = mi[s];
+  }
+  set_paths(); wipe_paths();
+  uint64_t oh = 0x16;
+  int s = 0;
+  while (s < len) {
+    int st; char stage; int from = s;
+    int done = run_steps(from, len, mi, pp, RES, &stage, &st);
+    for (; s < from + done; s++) {
+      mdl *a = &M[mi[s]]; int kind = a->kind, p = pp[s]; stepres *R = &RES[s]; char key[120];
+      vx_log("step %d: Write%s(%s, path %d)  [%s]\n", s, KN[kind], a->name, p, cls[s]);
+      vx_transition(R->pred_done ? 3 : 2);
+      oh = vx_hash(&R->fh, sizeof R->fh, oh); vx_outcome(oh);                 /* observed: the bytes written */
+      snprintf(key, sizeof key, "write-mutates|Write%s", KN[kind]);
+      vx_check(!R->mutated, key, "step %d: the in-memory model %s changed while it was written", s, a->name);
+      snprintf(key, sizeof key, "other-path|Write%s", KN[kind]);
+      vx_check(!R->other_changed, key, "step %d: writing path %d changed the file of path %d", s, p, 1 - p);
+      snprintf(key, sizeof key, "readback|%s|%s", KN[kind], cls[s]);
+      vx_check(R->ok, key, "step %d of %d, Write%s(%s) to path %d after %d earlier write(s) to it, then Read%s: %s", s + 1, len, KN[kind], a->name, p, nprev[s], KN[kind], R->msg);
+      if (!R->ok) vx_log("  readback differs: %s\n", R->msg);
+      mg_note(R->val_ratio, &mg_pass_val, &mg_fail_val);
+      if (R->has2) vx_check(R->ok2, "unsaved-field|PCA|dmodx", "Write/ReadPCA(%s): %s (WritePCA stores no dmodx table)", a->name, R->msg2);
+      if (R->pred_done) {
+        mg_note(R->pred_ratio, &mg_pass_pred, &mg_fail_pred);
+        snprintf(key, sizeof key, "predict|%s|%s", KN[kind], cls[s]);
+        vx_check(R->pred_ratio <= 1.0, key, "step %d: prediction of the model read back (%s) differs: %d numbers (expected %d), element %d is %.17g, the saved model gives %.17g (allowed %.3g)", s, a->name, R->pred_n, a->np, R->wj, R->pv, R->sv, R->av);
       }
-      oh = vx_hash(&stage, 1, oh); vx_outcome(oh);
-      if (stage == 'W') break;            /* the file may be half written: the rest of this history is not judged */
-      if (nh[p] < MAXLEN) hist[p][nh[p]++] = mi;
-      continue;
+      oh = vx_hash(&R->ok, sizeof R->ok, R->gh ^ oh);
+      vx_outcome(oh);                  /* what was read back */
     }
-    oh = vx_hash(&R.fh, sizeof R.fh, oh); vx_outcome(oh);                 /* observed: the bytes written */
-    snprintf(key, sizeof key, "write-mutates|Write%s", KN[kind]);
-    vx_check(!R.mutated, key, "step %d: the in-memory model %s changed while it was written", s, a->name);
-    snprintf(key, sizeof key, "other-path|Write%s", KN[kind]);
-    vx_check(!R.other_changed, key, "step %d: writing path %d changed the file of path %d", s, p, 1 - p);
-    snprintf(key, sizeof key, "readback|%s|%s", KN[kind], cls);
-    vx_check(R.ok, key, "step %d of %d, Write%s(%s) to path %d after %d earlier write(s) to it, then Read%s: %s", s + 1, len, KN[kind], a->name, p, nh[p], KN[kind], R.msg);
-    if (!R.ok) vx_log("  readback differs: %s\n", R.msg);
-    mg_note(R.val_ratio, &mg_pass_val, &mg_fail_val);
-    if (R.has2) vx_check(R.ok2, "unsaved-field|PCA|dmodx", "Write/ReadPCA(%s): %s (WritePCA stores no dmodx table)", a->name, R.msg2);
-    if (R.pred_done) {
-      mg_note(R.pred_ratio, &mg_pass_pred, &mg_fail_pred);
-      snprintf(key, sizeof key, "predict|%s|%s", KN[kind], cls);
-      vx_check(R.pred_ratio <= 1.0, key, "step %d: prediction of the model read back (%s) differs: %d numbers (expected %d), element %d is %.17g, the saved model gives %.17g (allowed %.3g)", s, a->name, R.pred_n, a->np, R.wj, R.pv, R.sv, R.av);
+    if (s >= len) {
+      if (st != 0) { fprintf(stderr, "VX-HARNESS-ERROR: C16 step process ended with status %d after its last step\n", st); _exit(2); }
+      break;
     }
-    oh = vx_hash(&R.ok, sizeof R.ok, R.gh ^ oh);
-    vx_outcome(oh);                    /* what was read back */
-    if (nh[p] < MAXLEN) hist[p][nh[p]++] = mi;
+    /* the child ended inside step s */
+    mdl *a = &M[mi[s]]; int kind = a->kind, p = pp[s]; char key[120];
+    const char *call = stage == 'W' ? "Write" : stage == 'R' ? "Read" : stage == 'P' ? "Predict" : "step";
+    int sig = st & 0x7f, code = (st >> 8) & 0xff;
+    vx_log("step %d: Write%s(%s, path %d)  [%s]: process ended in %s (status %d)\n", s, KN[kind], a->name, p, cls[s], call, st);
+    if (stage == '?' || (sig == 0 && (code == 3 || code == 0))) { fprintf(stderr, "VX-HARNESS-ERROR: C16 step process failed outside a library call (stage %c, status %d)\n", stage, st); _exit(2); }
+    vx_transition(stage == 'W' ? 1 : stage == 'R' ? 2 : 3);
+    if (sig == 0 && code == EXIT_ALLOC) {
+      snprintf(key, sizeof key, "alloc|%s%s|%s", call, KN[kind], cls[s]);
+      vx_check(0, key, "step %d of %d, %s%s(%s) on path %d after %d earlier write(s): the call asks for more than %ld MB of memory -- a dimension is taken from the wrong place", s + 1, len, call, KN[kind], a->name, p, nprev[s], ALLOC_BUDGET >> 20);
+    } else if (sig == 0 && code == EXIT_NONTERM) {
+      snprintf(key, sizeof key, "nonterm|%s%s|%s", call, KN[kind], cls[s]);
+      vx_check(0, key, "step %d of %d, %s%s(%s): iteration ceiling exceeded", s + 1, len, call, KN[kind], a->name);
+    } else {
+      snprintf(key, sizeof key, "died|%s%s|%s", call, KN[kind], cls[s]);
+      vx_check(0, key, "step %d of %d, %s%s(%s) on path %d after %d earlier write(s) to it ended the process (%s %d; sanitizer report, if any, in the log)", s + 1, len, call, KN[kind], a->name, p, nprev[s], sig ? "signal" : "exit code", sig ? sig : code);
+    }
+    oh = vx_hash(&stage, 1, oh); vx_outcome(oh);
+    if (stage == 'W') break;              /* the file may be half written: the rest of this history is not judged */
+    s++;                                  /* a fresh process continues after the step that died */
   }
   wipe_paths();
 }
